@@ -717,14 +717,52 @@ def r_eraseguard(P, chk):
                             if lit is not None and len(lit) == cnt and (y["callee"] == "strcmp" or const_value(y["c"][3]) == cnt):
                                 guards.append(y)
             ok = False
+            defs_, dirty_ = {}, set()
+            for y in f.walk():
+                if y["k"] == "VarDecl" and y.get("c") and y["c"][0] is not None:
+                    defs_.setdefault(y["n"], []).append(y["c"][0])
+                elif y["k"] == "BinaryOperator" and y["op"] == "=" and (strip(y["c"][0]) or {}).get("k") == "DeclRefExpr":
+                    defs_.setdefault(strip(y["c"][0])["n"], []).append(y["c"][1])
+                elif y["k"] == "CompoundAssignOperator" or (y["k"] == "UnaryOperator" and y["op"] in ("post++", "pre++", "post--", "pre--", "&")):
+                    l_ = strip(y["c"][0])
+                    if l_ is not None and l_["k"] == "DeclRefExpr":
+                        dirty_.add(l_["n"])
             for g in guards:
+                # boolean locals every definition of which is `false` or a conjunction containing `cmp(..) == 0` (or `!cmp(..)`):
+                # false whenever the bytes differ
+                def implies_false(init, gid=g.get("i")):
+                    if const_value(init) == 0:
+                        return True
+                    conj, st_ = [], [init]
+                    while st_:
+                        e_ = strip(st_.pop())
+                        if e_ is None:
+                            continue
+                        if e_["k"] == "BinaryOperator" and e_["op"] == "&&":
+                            st_.extend(e_["c"])
+                        else:
+                            conj.append(e_)
+                    for e_ in conj:
+                        if e_["k"] == "BinaryOperator" and e_["op"] == "==" and const_value(e_["c"][1]) == 0 and \
+                                (strip(e_["c"][0]) or {}).get("i") == gid:
+                            return True
+                        if e_["k"] == "UnaryOperator" and e_["op"] == "!" and (strip(e_["c"][0]) or {}).get("i") == gid:
+                            return True
+                    return False
+                falsy = {nm for nm, ds in defs_.items() if nm not in dirty_ and any(const_value(d_) != 0 for d_ in ds) and all(implies_false(d_) for d_ in ds)}
+
                 # with the comparison decided "different" (non-zero) the erase must be unreachable
-                def decide(t_, gid=g.get("i")):
+                def decide(t_, gid=g.get("i"), falsy=falsy):
                     t2 = strip(t_)
                     if t2 is None:
                         return None
                     if t2.get("i") == gid:
                         return True            # non-zero: the bytes differ
+                    if t2["k"] == "DeclRefExpr" and t2["n"] in falsy:
+                        return False
+                    if t2["k"] == "UnaryOperator" and t2["op"] == "!" and (strip(t2["c"][0]) or {}).get("k") == "DeclRefExpr" and \
+                            strip(t2["c"][0])["n"] in falsy:
+                        return True
                     if t2["k"] == "BinaryOperator" and t2["op"] in ("==", "!=") and const_value(t2["c"][1]) == 0 and \
                             (strip(t2["c"][0]) or {}).get("i") == gid:
                         return t2["op"] == "!="
